@@ -90,6 +90,8 @@ ObjCand(T, env, f) ==
                         \cup (IF \E j \in DOMAIN b : b[j].key = "zz" THEN {} ELSE {VObj(<<P("zz", VStr("a"))>> \o b)})
                         \cup Plus(b, "__proto__", VStr("a")) \cup Plus(b, "constructor", VNum("1")) \cup Plus(b, "toString", VStr("a"))
                         \cup { VObjC("null", b), VObjC("inst", b), VObj(Reverse(b)) }
+                        \* objects whose prototype is not Object.prototype that also carry an undeclared key
+                        \cup (IF \E j \in DOMAIN b : b[j].key = "zz" THEN {} ELSE { VObjC("null", b \o <<P("zz", VNum("1"))>>), VObjC("inst", <<P("zz", VStr("a"))>> \o b) })
                         \* every property inherited from the prototype (TypeScript: the same structural type)
                         \cup (IF b # <<>> THEN { VObjC("inh", b) } ELSE {})
                         \cup { VObj(b \o <<P(key, m)>>) : key \in ixKeys, m \in ixMem \cup ixBad }
